@@ -133,6 +133,11 @@ var c02MsgExt = []string{
 	"<no-store xmlns='urn:xmpp:hints'/>",
 	"<markable xmlns='urn:xmpp:chat-markers:0'/>",
 	"<html xmlns='http://jabber.org/protocol/xhtml-im'><body xmlns='http://www.w3.org/1999/xhtml'><p>hi <b>there</b></p></body></html>",
+	// registered extensions with hand-written decoders: known and unknown children, and a descendant
+	// named like the extension element itself
+	"<event xmlns='http://jabber.org/protocol/pubsub#event'><items node='n'><item id='i1'/></items></event>",
+	"<event xmlns='http://jabber.org/protocol/pubsub#event'><future xmlns='urn:example:future'><event/></future></event>",
+	"<event xmlns='http://jabber.org/protocol/pubsub#event'><purge node='n'/><x xmlns='unknown:ns'><event xmlns='http://jabber.org/protocol/pubsub#event'/></x></event>",
 }
 
 func c02Stanza(g G, kind string, i int, compNS bool) string {
@@ -198,7 +203,11 @@ func c02Stanza(g G, kind string, i int, compNS bool) string {
 			case 0:
 				b.WriteString([]string{"<show>away</show>", "<status>s &amp; t</status>", "<priority>5</priority>"}[g.N("pfield", 3)])
 			case 1:
-				b.WriteString("<x xmlns='http://jabber.org/protocol/muc'><history maxstanzas='3'/></x>")
+				b.WriteString([]string{
+					"<x xmlns='http://jabber.org/protocol/muc'><history maxstanzas='3'/></x>",
+					"<x xmlns='http://jabber.org/protocol/muc'><history maxchars='1'><history/></history></x>",
+					"<x xmlns='http://jabber.org/protocol/muc'><history seconds='5'><y xmlns='unknown:ns'><history xmlns='http://jabber.org/protocol/muc'/></y></history><password>p</password></x>",
+				}[g.N("mucx", 3)])
 			case 2:
 				b.WriteString(c02Tree(g, g.Range("depth", 0, 4), c02NS[g.N("ns", len(c02NS)-1)]))
 			case 3:
@@ -225,7 +234,11 @@ func c02Stanza(g G, kind string, i int, compNS bool) string {
 			case 1:
 				b.WriteString("<query xmlns='http://jabber.org/protocol/disco#info'><identity category='c' type='t'/><feature var='f'/></query>")
 			case 2:
-				b.WriteString("<query xmlns='jabber:iq:roster'><item jid='a@b' name='n'><group>g</group></item></query>")
+				b.WriteString([]string{
+					"<query xmlns='jabber:iq:roster'><item jid='a@b' name='n'><group>g</group></item></query>",
+					"<pubsub xmlns='http://jabber.org/protocol/pubsub#owner'><delete node='n'/></pubsub>",
+					"<pubsub xmlns='http://jabber.org/protocol/pubsub#owner'><future xmlns='urn:example:future'><pubsub/></future></pubsub>",
+				}[g.N("iqreg", 3)])
 			case 3:
 				b.WriteString(c02Tree(g, g.Range("depth", 0, 5), c02NS[g.N("ns", len(c02NS)-1)]))
 			case 4:
